@@ -182,6 +182,8 @@ impl StreamingLoop {
             }
 
             let maximum_payload_size = self.params.maximum_payload_size();
+            #[cfg(cameleon_verif)]
+            super::verif::yield_point("before_obtain_buffer");
             let mut payload_buf = match payload_buf_opt.take() {
                 Some(payload_buf) => payload_buf,
                 None => match self.sender.try_recv() {
@@ -205,6 +207,8 @@ impl StreamingLoop {
                 // Report and send error if the error is fatal.
                 if matches!(err, StreamError::Io(..) | StreamError::Disconnected) {
                     error!(?err);
+                    #[cfg(cameleon_verif)]
+                    super::verif::yield_point("before_send_error");
                     self.sender.try_send(Err(err)).ok();
                 }
                 payload_buf_opt = Some(payload_buf);
@@ -215,6 +219,8 @@ impl StreamingLoop {
                 warn!(?err);
                 // Reuse `payload_buf`.
                 payload_buf_opt = Some(payload_buf);
+                #[cfg(cameleon_verif)]
+                super::verif::yield_point("before_send_error");
                 self.sender.try_send(Err(err)).ok();
                 continue;
             };
@@ -223,6 +229,8 @@ impl StreamingLoop {
                 warn!(?err);
                 // Reuse `payload_buf`.
                 payload_buf_opt = Some(payload_buf);
+                #[cfg(cameleon_verif)]
+                super::verif::yield_point("before_send_error");
                 self.sender.try_send(Err(err)).ok();
                 continue;
             };
@@ -246,6 +254,8 @@ impl StreamingLoop {
                     Err(err) => {
                         warn!(?err);
                         // Can't reuse `payload_buf` because we're in a loop.
+                        #[cfg(cameleon_verif)]
+                        super::verif::yield_point("before_send_error");
                         self.sender.try_send(Err(err.into())).ok();
                         continue 'outer;
                     }
@@ -279,6 +289,8 @@ impl StreamingLoop {
                 warn!(?err);
                 // Reuse `payload_buf`.
                 payload_buf_opt = Some(payload_buf);
+                #[cfg(cameleon_verif)]
+                super::verif::yield_point("before_send_error");
                 self.sender.try_send(Err(err)).ok();
                 continue;
             }
@@ -296,6 +308,8 @@ impl StreamingLoop {
                     warn!(?err);
                     // Reuse `payload_buf`.
                     payload_buf_opt = Some(payload_buf);
+                    #[cfg(cameleon_verif)]
+                    super::verif::yield_point("before_send_error");
                     self.sender.try_send(Err(err)).ok();
                     continue;
                 }
@@ -309,6 +323,8 @@ impl StreamingLoop {
                     warn!(?err);
                     // Reuse `payload_buf`.
                     payload_buf_opt = Some(payload_buf);
+                    #[cfg(cameleon_verif)]
+                    super::verif::yield_point("before_send_error");
                     self.sender.try_send(Err(err)).ok();
                     continue;
                 }
@@ -328,6 +344,8 @@ impl StreamingLoop {
                 warn!(?err);
                 // Reuse `payload_buf`.
                 payload_buf_opt = Some(payload_buf);
+                #[cfg(cameleon_verif)]
+                super::verif::yield_point("before_send_error");
                 self.sender.try_send(Err(err)).ok();
                 continue;
             }
@@ -347,6 +365,8 @@ impl StreamingLoop {
                     // Can't reuse `payload_buf` because we moved it
                     // into PayloadBuilder above.
                     payload_buf_opt = None;
+                    #[cfg(cameleon_verif)]
+                    super::verif::yield_point("before_send_error");
                     self.sender.try_send(Err(e)).ok();
                     continue;
                 }
